@@ -131,6 +131,48 @@ theorem valid_implies_shapes_agree {α : Type} (z : α) (c : SrrConfig) (M : Nat
   · obtain ⟨out, ho, _⟩ := krisskross_voxel z c M hM hscan hoffs layers l0 s0 l1 s1 hc hv
     rw [ho]; rfl
 
+/-- `subpixel_offset` in general (independent x / y offsets and enlargements, any non-empty offset
+list): it never fails, the canvas is the enlarged image plus the largest offset per axis, layer `i`
+is the enlarged layer placed at the `i mod len`-th effective offset (a zero pair is prepended when
+the first offset is not zero) and the canvas is zero elsewhere. -/
+theorem subpixel_offset_spec {α : Type} (z : α) (x : Arr3 α) (offs : List (Nat × Nat)) (hne : offs ≠ [])
+    (ps : Nat × Nat) :
+    ∃ out, subpixelOffset z x offs ps = some out ∧
+      out.rows = x.rows * ps.1 + maxList ((effOffsets offs).map (·.1)) ∧
+      out.cols = x.cols * ps.2 + maxList ((effOffsets offs).map (·.2)) ∧
+      out.depth = x.depth ∧
+      ∀ r cc i, out.get r cc i =
+        (if ((effOffsets offs).getD (i % (effOffsets offs).length) (0, 0)).1 ≤ r ∧
+            r < ((effOffsets offs).getD (i % (effOffsets offs).length) (0, 0)).1 + x.rows * ps.1 ∧
+            ((effOffsets offs).getD (i % (effOffsets offs).length) (0, 0)).2 ≤ cc ∧
+            cc < ((effOffsets offs).getD (i % (effOffsets offs).length) (0, 0)).2 + x.cols * ps.2 then
+          x.get ((r - ((effOffsets offs).getD (i % (effOffsets offs).length) (0, 0)).1) / ps.1)
+                ((cc - ((effOffsets offs).getD (i % (effOffsets offs).length) (0, 0)).2) / ps.2) i
+        else z) := by
+  have hne' := effOffsets_ne_nil offs hne
+  have hemp : (effOffsets offs).isEmpty = false := by
+    cases h : effOffsets offs with
+    | nil => exact absurd h hne'
+    | cons a as => rfl
+  refine ⟨?w, ?e, ?a, ?b, ?d, ?f⟩
+  case e =>
+    unfold subpixelOffset
+    simp only [hemp, Bool.false_eq_true, if_false, region_general (effOffsets offs) hne']
+    split
+    · rfl
+    · rename_i hneg
+      exfalso; apply hneg
+      rw [List.all_eq_true]
+      intro i _
+      simp
+  case a => rfl
+  case b => rfl
+  case d => rfl
+  case f => intro r cc i; rfl
+
+example : effOffsets [(1, 2), (0, 3)] = [(0, 0), (1, 2), (0, 3)] ∧ effOffsets [(0, 0), (1, 1)] = [(0, 0), (1, 1)] := by
+  decide
+
 /-- **The flattened image is the per-pixel mean over the layers** of the voxels of the geometric
 model (same hypotheses as `krisskross_voxel`). -/
 theorem flat_is_mean (c : SrrConfig) (M : Nat) (hM : 1 ≤ M) (hscan : 0 < c.scantime) (hoffs : c.offs ≠ [])
